@@ -9,7 +9,7 @@ HARNESS = "ssr"
 HARNESS_ARGS = ["c06"]
 ALLOWED_AXIOMS = []
 RUN_IMPORT = "Html.SsrRun"
-READY = False
+READY = True
 
 TAGS = ["div", "span", "section", "input", "br", "img", "textarea", "title", "script", "style"]
 VOID = {3, 4, 5}
